@@ -38,6 +38,24 @@ def T(f):
     return f
 
 
+def cfg(f):
+    """(period, unit) carried by a ('raw', text, formula, period, unit) node anywhere in f (vf/pool.py), else (None, None)"""
+    import re
+    f = T(f)
+    if not isinstance(f, tuple):
+        return None, None
+    if f[0] == 'raw':
+        if len(f) >= 5 and (f[3] or f[4]):
+            m = re.match(r'(\d+)(\w+)$', f[3]) if f[3] else None
+            return ((int(m.group(1)), m.group(2)) if m else None), (f[4] or None)
+        return None, None
+    for c in kids(f):
+        r = cfg(c)
+        if r != (None, None):
+            return r
+    return None, None
+
+
 def kids(f):
     return [c for c in f[1:] if isinstance(c, tuple)]
 
